@@ -125,3 +125,16 @@ def write_settings(directory: str) -> str:
     with open(p, "w") as fh:
         json.dump(settings_dict(), fh)
     return p
+
+
+def compile_text_budget(text, file_name="/nonexistent/main.exps", lookup_paths=None, limit=3_000_000):
+    """compile under the deterministic step budget; raises NoAnswer when it is exhausted"""
+    try:
+        with StepBudget(limit):
+            return compile_text(text, file_name, lookup_paths)
+    except BudgetExceeded:
+        raise NoAnswer(f"compile() did not return within {limit} function entries") from None
+
+
+class NoAnswer(Exception):
+    pass
